@@ -88,7 +88,12 @@ void stubu_setNbAnalogByFrame(struct Header *self, size_t k)
 #define DATA_SUB (self->_data->_frames.data[0]._analogs->_subframe.size)
 /* the ranges in which the float -> integer conversions of the updater are defined (C19: outside them the conversion is
  * undefined behaviour, see DESIGN 9.5) and the 16-bit capacity of the header words */
+#ifdef VF_WIDE_RATES
+/* unit c3d_updateHeader_rates: any finite non-negative rate - only the conversion checks of the updater are reported */
+#define RATE_OK(r) ((r) >= 0.0f && (r) <= 1.0e9f)
+#else
 #define RATE_OK(r) ((r) >= 0.0f && (r) <= 200000.0f)
+#endif
 
 void h_c3d_updateHeader(void)
 {
@@ -132,6 +137,7 @@ void h_c3d_updateHeader(void)
   float pr = P_RATE, ar = A_RATE;
   vf_exc = 0;
   c3d__updateHeader(self);
+#ifndef VF_WIDE_RATES
   /*@ C05 C10 : updateHeader.nothrow */ __CPROVER_assert(vf_exc == 0, "never throws on a valid object");
   /*@ C05 : updateHeader.point-count-is-POINT-USED */ __CPROVER_assert(H->_nb3dPoints == P_USED, "header point count = POINT:USED");
   /* header rate = POINT:RATE to 1e-4 Hz, i.e. (int)(rate' * 1e4) == (int)(POINT:RATE * 1e4): stated as two obligations whose
@@ -167,5 +173,6 @@ void h_c3d_updateHeader(void)
                    H->_eventsLabel.data == h0._eventsLabel.data && H->_eventsDisplay.data == h0._eventsDisplay.data &&
                    P_FRAMES == pf && P_USED == pu && A_USED == au && P_RATE == pr && A_RATE == ar,
                    "nothing but the six derived header words changes; the parameters are not touched");
+#endif
   VF_CANARY();
 }
